@@ -21,7 +21,7 @@ from . import io, io_array
 
 def declare(rep):
     rep.rule("C08.compile", "reader harness compiles (NDEBUG and assertion-enabled)", floor=20)
-    rep.rule("C08.a", "only covfie::utility::read_binary<T> reads from a std::istream", floor=20)
+    rep.rule("C08.a", "the only stream operation of a reader is std::istream::read (each judged by C08.b); other istream members are not modelled (exit 2)", floor=20)
     rep.rule("C08.b", "every read is followed by a stream-state test guarding all later stream operations, uses of the bytes read and the normal return; failure throws", floor=60)
     rep.rule("C08.c", "no assertion is reachable in a reader (assertion-enabled build)", floor=20)
     rep.rule("C08.h", "exceptions raised while reading propagate: no stream/allocation/throw site unwinds into std::terminate", floor=20)
@@ -82,16 +82,11 @@ def check_reader(rep, g, build):
         rep.fail("C08.h", inst, ir.where(tu[0]), "an exception raised by %s while reading (or while a reading exception unwinds) cannot propagate: a noexcept frame, e.g. a destructor, turns it into std::terminate (abort instead of exception)" % (tu[0].get("dcallee") or tu[0].get("callee") or "an indirect call")[:60])
     else:
         rep.ok("C08.h", inst)
-    # C08.a
-    bad = [i for i in R if i["kind"] == "other-istream"]
-    for i in R:
-        if i["kind"] == "raw":
-            dbg = i["call"].inst.get("dbg") or []
-            fn = dbg[0].get("fn", "") if dbg else ""
-            if not fn.startswith("read_binary") or "binary_io.hpp" not in dbg[0].get("file", ""):
-                bad.append(i)
-    if bad:
-        rep.fail("C08.a", inst, ir.where(bad[0]["call"].inst), "std::istream is read outside covfie::utility::read_binary (%s)" % (bad[0]["call"].dname or "")[:80])
+    # C08.a: the only stream operation is istream::read (wherever it is written: the guard rule C08.b judges every read
+    # after inlining); another istream member (formatted input, gcount, peek, seek) is outside the stream model
+    other = [i for i in R if i["kind"] == "other-istream"]
+    if other:
+        rep.undecided("C08 %s: the reader uses %s at %s; the stream model knows istream::read and the state word only" % (inst, (other[0]["call"].dname or "")[:80], ir.where(other[0]["call"].inst)))
     else:
         rep.ok("C08.a", inst)
     reads = [i for i in R if i["kind"] == "raw"]
